@@ -396,6 +396,13 @@ pub open spec fn include_post(
     }
 }
 
+impl Error {
+    // error.rs `Error::with_pos` (unit err_pos): sets the position, nothing else
+    #[verifier::external_body]
+    pub fn with_pos(self, pos: Position) -> Self { unimplemented!() }
+}
+//@ extract src/build/opcode/error.rs :: macro decorate_error
+//@ end
 //@ extract src/build/opcode/runtime.rs :: impl Builtins :: fn get_file_as_string
 //@   subst "path: &str" => "path: &str, world: &World"
 //@   subst "File::open(path)" => "File::open(path, world)"
@@ -430,7 +437,7 @@ pub open spec fn include_post(
 // the pinned tree feeding importers through read_to_string (written against the rewritten text); (3) importer error swallowed into NULL; (4) unknown type
 // yields NULL; (5) the two operands taken in the wrong order.
 //@   mutant empty_file_is_null "match importer.import(&contents) { Ok(v) => v.into(), Err(e) => return Err(Error::new(format!(\"{}\", e).into(), pos)), }" => "if contents.is_empty() { P(Empty) } else { match importer.import(&contents) { Ok(v) => v.into(), Err(e) => return Err(Error::new(format!(\"{}\", e).into(), pos)), } }" expect include
-//@   mutant importer_reads_text "let contents = self.get_file_as_bytes(&path, world)?; match importer.import(&contents)" => "let contents = self.get_file_as_string(&path, world)?; match importer.import(contents.as_bytes())" expect include
+//@   mutant importer_reads_text "let contents = decorate_error!(pos => self.get_file_as_bytes(&path, world))?; match importer.import(&contents)" => "let contents = decorate_error!(pos => self.get_file_as_string(&path, world))?; match importer.import(contents.as_bytes())" expect include
 //@   mutant error_swallowed_into_null "Err(e) => return Err(Error::new(format!(\"{}\", e).into(), pos))," => "Err(e) => P(Empty)," expect include
 //@   mutant unknown_type_is_null "None => { return Err(Error::new(format!(\"No such conversion type {}\", &typ).into(), pos,)) }" => "None => { P(Empty) }" expect include
 //@   mutant operands_swapped "let path = stack.pop(); let typ = stack.pop();" => "let typ = stack.pop(); let path = stack.pop();" expect include
